@@ -106,9 +106,18 @@ HOPS = {"amapping": h_amapping, "target": h_target, "domain": h_domain, "space":
 
 # ------------------------------------------------------------------ targets
 def perm(seq, k):
-    ps = list(itertools.permutations(range(len(seq))))
-    p = ps[k % len(ps)]
-    return [seq[i] for i in p]
+    """variant k of the order of seq: 0 = as given, k > 0 = a shuffle seeded by k (the first indices of
+    itertools.permutations only move the last elements, which leaves e.g. the members of a nested union alone)"""
+    if k == 0 or len(seq) < 2:
+        return list(seq)
+    import random
+    idx = list(range(len(seq)))
+    r = random.Random(1000 + k)
+    for _ in range(8):
+        r.shuffle(idx)
+        if idx != sorted(idx):
+            break
+    return [seq[i] for i in idx]
 
 
 def attrs(objs):
@@ -203,7 +212,8 @@ def t_union(k):
     before = attrs(inputs)
     u = Union(*bs)
     v = Union(Union(*bs[:3]), *bs[2:])
-    return [str(u), str(v), str(u == v), str(u.complement(bs[0]))], before, attrs(inputs)
+    fixed = sorted(bs, key=str)[0]                    # the same member in every variant
+    return [str(u), str(v), str(u == v), str(u.complement(fixed))], before, attrs(inputs)
 
 
 def t_equation(k):
